@@ -120,7 +120,7 @@ func (s *PState) Fact(name string) Tri { return s.facts["@"+name] }
 // Deferred reports whether an event is registered to run at function exit.
 func (s *PState) Deferred(ev string) bool {
 	for _, d := range s.defers {
-		if d == ev {
+		if d[strings.Index(d, "|")+1:] == ev {
 			return true
 		}
 	}
@@ -575,8 +575,8 @@ func (e *pathEngine) run(f *ssa.Function, st0 *PState) []*PState {
 			m[k] = true
 			e.res.Blocks++
 			st.trace = append(st.trace, fmt.Sprintf("%d", b.Index))
-			if len(st.trace) > 60 {
-				st.trace = st.trace[len(st.trace)-60:]
+			if len(st.trace) > 30 {
+				st.trace = st.trace[len(st.trace)-30:]
 			}
 		}
 		forked := false
@@ -600,7 +600,7 @@ func (e *pathEngine) run(f *ssa.Function, st0 *PState) []*PState {
 				e.target(in, st)
 				forked = true
 			case *ssa.RunDefers:
-				outs := e.runDefers(st)
+				outs := e.runDefers(st, x.Parent())
 				for _, o := range outs {
 					work = append(work, workItem{b: b, idx: i + 1, pred: nil, st: o})
 				}
@@ -698,7 +698,7 @@ func (e *pathEngine) step(in ssa.Instruction, st *PState) {
 	case *ssa.Defer:
 		if mc, ok := x.Call.Value.(*ssa.MakeClosure); ok {
 			if f, ok := mc.Fn.(*ssa.Function); ok && len(f.Blocks) > 0 {
-				id := fmt.Sprintf("fn:%d", e.id(f))
+				id := fmt.Sprintf("%d|fn:%d", e.id(in.Parent()), e.id(f))
 				e.dfns[id] = f
 				st.defers = append(st.defers, id)
 				return
@@ -706,7 +706,7 @@ func (e *pathEngine) step(in ssa.Instruction, st *PState) {
 		}
 		if e.r.Event != nil {
 			if name := e.r.Event(in); name != "" {
-				st.defers = append(st.defers, name)
+				st.defers = append(st.defers, fmt.Sprintf("%d|%s", e.id(in.Parent()), name))
 			}
 		}
 		return
@@ -726,9 +726,17 @@ func (e *pathEngine) step(in ssa.Instruction, st *PState) {
 }
 
 // runDefers fires the deferred events (last registered first); deferred closures are analysed in place.
-func (e *pathEngine) runDefers(st *PState) []*PState {
-	ds := st.defers
-	st.defers = nil
+func (e *pathEngine) runDefers(st *PState, fn *ssa.Function) []*PState {
+	tag := fmt.Sprintf("%d|", e.id(fn))
+	var ds, keep []string
+	for _, d := range st.defers {
+		if strings.HasPrefix(d, tag) {
+			ds = append(ds, d)
+		} else {
+			keep = append(keep, d)
+		}
+	}
+	st.defers = keep
 	states := []*PState{st}
 	for i := len(ds) - 1; i >= 0; i-- {
 		d := ds[i]
@@ -745,8 +753,9 @@ func (e *pathEngine) runDefers(st *PState) []*PState {
 			states = next
 			continue
 		}
+		name := d[strings.Index(d, "|")+1:]
 		for _, s := range states {
-			e.fire(d, "", s)
+			e.fire(name, "", s)
 		}
 	}
 	return states
